@@ -703,7 +703,67 @@ class _PlainAnnotated(ast.NodeTransformer):
         return n  # annotated class-level fields (dataclasses, NamedTuples) keep their form
 
 
+def _inline_filter_generators(tree: ast.Module) -> int:
+    """`for e in _edges_not_of_size(hypergraph.get_edges(), size): body`  with the module-level generator
+           def _edges_not_of_size(edges, size):
+               for e in edges:
+                   if len(e) != size:
+                       yield e
+    is  `for e in hypergraph.get_edges(): if len(e) != size: body`.  Only generators of exactly that shape (one loop over their first
+    parameter, one optional test, `yield <loop variable>`), called with plain positional arguments; the arguments other than the
+    iterated one must be names / constants / attribute chains (they are evaluated once per item after the rewrite)."""
+    import copy as _copy
+
+    helpers = {}
+    for fn in tree.body:
+        if not isinstance(fn, ast.FunctionDef) or fn.decorator_list or fn.args.vararg or fn.args.kwarg or fn.args.kwonlyargs or fn.args.defaults:
+            continue
+        body = [st for st in fn.body if not (isinstance(st, ast.Expr) and isinstance(st.value, ast.Constant))]
+        if len(body) != 1 or not isinstance(body[0], ast.For) or body[0].orelse:
+            continue
+        lp = body[0]
+        params = [a.arg for a in fn.args.args]
+        if not params or not (isinstance(lp.iter, ast.Name) and lp.iter.id == params[0]) or not isinstance(lp.target, ast.Name):
+            continue
+        inner, test = lp.body, None
+        if len(inner) == 1 and isinstance(inner[0], ast.If) and not inner[0].orelse:
+            test, inner = inner[0].test, inner[0].body
+        if not (len(inner) == 1 and isinstance(inner[0], ast.Expr) and isinstance(inner[0].value, ast.Yield) and isinstance(inner[0].value.value, ast.Name) and inner[0].value.value.id == lp.target.id):
+            continue
+        if test is not None and any(isinstance(x, ast.Name) and x.id == params[0] for x in ast.walk(test)):
+            continue
+        helpers[fn.name] = (params, lp.target.id, test)
+    if not helpers:
+        return 0
+    done = 0
+    for lp in [n for n in ast.walk(tree) if isinstance(n, ast.For)]:
+        it = lp.iter
+        if not (isinstance(it, ast.Call) and isinstance(it.func, ast.Name) and it.func.id in helpers and not it.keywords and not any(isinstance(a, ast.Starred) for a in it.args)):
+            continue
+        params, tvar, test = helpers[it.func.id]
+        if len(it.args) != len(params) or not isinstance(lp.target, ast.Name):
+            continue
+        if not all(isinstance(a, (ast.Name, ast.Constant)) or (isinstance(a, ast.Attribute) and isinstance(a.value, ast.Name)) for a in it.args[1:]):
+            continue
+        mapping = dict(zip(params[1:], it.args[1:]))
+        mapping[tvar] = lp.target
+
+        class Sub(ast.NodeTransformer):
+            def visit_Name(self, n):
+                if isinstance(n.ctx, ast.Load) and n.id in mapping:
+                    return ast.copy_location(_copy.deepcopy(mapping[n.id]) if not isinstance(mapping[n.id], ast.Name) else ast.Name(id=mapping[n.id].id, ctx=ast.Load()), n)
+                return n
+
+        lp.iter = it.args[0]
+        if test is not None:
+            new_test = Sub().visit(_copy.deepcopy(test))
+            lp.body = [ast.copy_location(ast.If(test=new_test, body=lp.body, orelse=[]), lp.body[0])]
+        done += 1
+    return done
+
+
 def canonicalise(tree: ast.Module) -> ast.Module:
+    _inline_filter_generators(tree)
     tables = _module_tables(tree)
     for fn in _functions(tree):
         _PlainAnnotated().visit(fn)
